@@ -264,6 +264,25 @@ def file_shapes(ctx, lua, rng, count):
                 if got != want:
                     ctx.violation('.p8 path with the luamin writer changed the bytes of a multi-line string', {'kind': 'file', 'code': code})
                     return
+        # (b1) glyphs that are whole tokens (the button names of `btn(x)`, a glyph used as a variable), also as the very last byte of
+        # the code: a token writer hands them to the file writer as one-byte pieces
+        keys = bytes((139, 145, 148, 131, 142, 151))
+        k1, k2, k3 = (keys[(i + j) % 6:(i + j) % 6 + 1] for j in range(3))
+        tail = (b'\n', b'', b' ', b'\n\n')[i % 4]
+        code = (b'if btn(' + k1 + b') then\n p=btn(' + k2 + b',1)\nend\nwhile btnp(\n' + k3 + b'\n) do q=1 end\nr=' + k1 + tail)
+        ctx.case(code)
+        for writer, wname in ((None, 'echo'), (lua.LuaMinifyTokenWriter, 'luamin'), (lua.LuaASTEchoWriter, 'astecho'), (lua.LuaFormatterWriter, 'luafmt')):
+            try:
+                back = p8_roundtrip(code, version, entry, writer=writer)
+            except Exception as e:
+                ctx.violation('.p8 path (%s, %s writer) raised %r on code whose glyphs are whole tokens' % (entry, wname, e),
+                              {'kind': 'file', 'code': code})
+                return
+            ctx.monitor('file_roundtrips')
+            ctx.feature('glyph_token_cases_' + wname)
+            if (back not in (code, code + b'\n')) if writer is None else ([c for c in back if c >= 128] != [c for c in code if c >= 128]):
+                ctx.violation('.p8 path (%s writer) changed glyphs that are whole tokens: %r -> %r' % (wname, code, back), {'kind': 'file', 'code': code})
+                return
         # (b2) physical lines that consist of two underscores, glyphs (and word characters), two underscores: inside a block comment,
         # inside a long string and as a name used as a statement's target -- a section header of a .p8 file is ASCII, these are code
         per = [b'__' + bytes([b]) + b'__' for b in allglyph] + [b'__a' + bytes([b]) + b'1__' for b in allglyph[i::3]] + [
@@ -436,7 +455,7 @@ def gates(m, tier):
     if mon.get('file_roundtrips', 0) < 1:
         missed.append('.p8 path never exercised')
     for k in ('file_version_0', 'file_version_33', 'file_entry_stream', 'file_entry_path', 'file_entry_cli', 'history_done', 'file_shapes_done',
-              'line_over_64k_utf8_bytes', 'lines_of_underscored_glyph_words', 'argument_type:bytes', 'argument_type:bytearray', 'argument_type:memoryview', 'multiline_token_cases_echo', 'multiline_token_cases_luamin', 'include_cases_p8', 'file_layout_lua_last', 'file_layout_lua_only', 'p8scii_runs_that_look_like_utf8_glyphs'):
+              'line_over_64k_utf8_bytes', 'lines_of_underscored_glyph_words', 'argument_type:bytes', 'argument_type:bytearray', 'argument_type:memoryview', 'multiline_token_cases_echo', 'multiline_token_cases_luamin', 'glyph_token_cases_echo', 'glyph_token_cases_luamin', 'glyph_token_cases_astecho', 'glyph_token_cases_luafmt', 'include_cases_p8', 'file_layout_lua_last', 'file_layout_lua_only', 'p8scii_runs_that_look_like_utf8_glyphs'):
         if f.get(k, 0) < 1:
             missed.append('%s never seen' % k)
     if mon.get('foreign_conversions', 0) < 20:
